@@ -221,6 +221,10 @@ def isinstance_one(I, v, t):
             return isinstance(v, (ClassRef,)) or (isinstance(v, Ext))
         if name == "object":
             return True
+        if name == "NoneType":
+            if isinstance(v, Env) and not v.nonnull:
+                return I.isnone(v)
+            return v is None
         if isinstance(v, ExcVal):
             return I.exc_isinstance(v, name)
         if isinstance(v, Env):
